@@ -53,6 +53,9 @@ func findWalkers(p *Prog) []*Walker {
 
 // parentKey strips the last method call of a value key: "x.Index(i)" -> "x"; "" if none.
 func parentKey(key string) string {
+	if strings.HasSuffix(key, ".MapRange().Value()") {
+		return strings.TrimSuffix(key, ".MapRange().Value()")
+	}
 	if !strings.HasSuffix(key, ")") {
 		return ""
 	}
